@@ -253,10 +253,40 @@ func c05AliasProgram(r *vrt.Rng) (src string, gIn, eIn []string) {
 	return b.String(), []string{in()}, []string{in()}
 }
 
+// c05ManyValues draws a program of the "many values" family: an unrolled loop
+// of 150-500 iterations creates thousands of distinct SSA values, and L lag
+// variables written in rotation keep some of them alive for L iterations while
+// their neighbours die at once - the allocator's tables (hash buckets, free
+// lists) hold many entries with interleaved lifetimes, which small programs
+// never produce.
+func c05ManyValues(r *vrt.Rng) (src string, gIn, eIn []string) {
+	W := vrt.Pick(r, []int{8, 16, 32})
+	N := r.Range(150, 500)
+	L := r.Range(3, 8)
+	T := fmt.Sprintf("uint%d", W)
+	var b strings.Builder
+	fmt.Fprintf(&b, "package main\n\nfunc main(a [%d]%s, b %s) (%s, %s, %s) {\n\tvar acc, mix, x, y, z %s\n", N, T, T, T, T, T, T)
+	for k := 0; k < L; k++ {
+		fmt.Fprintf(&b, "\tvar k%d %s\n", k, T)
+	}
+	ops := []string{"+", "^", "-", "|", "&"}
+	fmt.Fprintf(&b, "\tfor i := 0; i < %d; i++ {\n", N)
+	fmt.Fprintf(&b, "\t\tx = a[i] %s b\n", vrt.Pick(r, ops[:3]))
+	fmt.Fprintf(&b, "\t\ty = x %s acc\n", vrt.Pick(r, ops[:3]))
+	fmt.Fprintf(&b, "\t\tz = (y >> %d) %s (x << %d)\n", r.Range(1, W-1), vrt.Pick(r, ops[:3]), r.Range(1, W-1))
+	for k := 0; k < L; k++ {
+		// the lag variable written L iterations ago is read just before it is overwritten
+		fmt.Fprintf(&b, "\t\tif i %% %d == %d {\n\t\t\tmix = mix %s (k%d %s z)\n\t\t\tk%d = z %s y\n\t\t}\n", L, k, vrt.Pick(r, ops[:3]), k, vrt.Pick(r, ops), k, vrt.Pick(r, ops[:3]))
+	}
+	fmt.Fprintf(&b, "\t\tacc = acc %s z\n\t}\n", vrt.Pick(r, ops[:2]))
+	fmt.Fprintf(&b, "\treturn acc, mix, k%d %s k%d\n}\n", r.Intn(L), vrt.Pick(r, ops[:3]), r.Intn(L))
+	return b.String(), []string{"0x" + fmt.Sprintf("%x", r.Bytes(N*W/8))}, []string{"0x" + r.Big(W).Text(16)}
+}
+
 func init() {
 	vrt.Register(&vrt.Prop{
 		ID: "C05", Level: "exploration",
-		Rule: "case = a two-party program (generated with aliasing bias: constant shifts, casts, array element and struct field updates, arrays/structs as arguments; or a PRNG-parameterised alias-family program (chains and fans of constant shifts, same-width casts, element stores and reads consumed in a PRNG order so that aliases die at different times); or a store-family program: literals, scalars and expressions narrower/equal/wider than the slot stored into array elements and struct fields, whole array and fields returned; or a fixture with unsized main(a, b uint) / []byte signatures instantiated from the exchanged input sizes, one keeping > 65535 wire ids live, one whose evaluator input wires straddle wire id 65536) run in streaming mode (Compiler.Stream against circuit.StreamEvaluator over a fragmenting tap; OT in {CO, COT}) on 1-3 boundary/random input pairs. " +
+		Rule: "case = a two-party program (generated with aliasing bias: constant shifts, casts, array element and struct field updates, arrays/structs as arguments; or a PRNG-parameterised alias-family program (chains and fans of constant shifts, same-width casts, element stores and reads consumed in a PRNG order so that aliases die at different times); or a many-values-family program (an unrolled loop of 150-500 iterations with lag variables: thousands of SSA values with interleaved lifetimes); or a store-family program: literals, scalars and expressions narrower/equal/wider than the slot stored into array elements and struct fields, whole array and fields returned; or a fixture with unsized main(a, b uint) / []byte signatures instantiated from the exchanged input sizes, one keeping > 65535 wire ids live, one whose evaluator input wires straddle wire id 65536) run in streaming mode (Compiler.Stream against circuit.StreamEvaluator over a fragmenting tap; OT in {CO, COT}) on 1-3 boundary/random input pairs. " +
 			"Oracle: no error, no stall, both parties' values identical and equal to the reference evaluation of the whole compiled circuit on the same inputs, output types and sizes identical to the circuit's. Distinct = hash(program, inputs).",
 		Assumptions: []string{"refc on the whole compiled circuit is the specification (C03 relates that circuit to the program)"},
 		NumCases: func(t string) int {
@@ -307,6 +337,10 @@ func runC05One(cs *vrt.Case) {
 	} else if k == 7 || k == 8 {
 		src, gIn, eIn = c05AliasProgram(r)
 		what = "alias family"
+		npairs = 1
+	} else if k == 4 {
+		src, gIn, eIn = c05ManyValues(r)
+		what = "many-values family"
 		npairs = 1
 	} else {
 		prog = mpclgen.Generate(r, c05GenCfg)
